@@ -539,6 +539,7 @@ def run(ctx):
         rule="S2C: every (start, stop, step, n) of the bounded Slice model in every argument form (flows as "
              "iterator / list / tuple / range / generator, odd objects, the ISlice alias on every 7th case), every "
              "behaviour of SliceUse (two interleaved runs and fill_into on one element) and every Iterators "
-             "scenario (all construction variants), non-trivial = flow not empty; C2S: seeded random Slice "
+             "scenario (all construction variants; CountFrom also shifted to and beyond the machine word), non-trivial = "
+             "flow not empty; C2S: seeded random Slice "
              "runs/fills outside the bounds",
         exhaustive=True)
